@@ -134,8 +134,8 @@ class BuildError(Exception):
 def build_cdriver(name, clib):
     """Compile harness/<name>.c against the freshly built libpoly.a"""
     srcf = os.path.join(VERIF, "harness", name + ".c")
-    common = os.path.join(VERIF, "harness", "common.h")
-    hsh = tree_hash([srcf, common], os.path.basename(clib))
+    common = sorted(glob.glob(os.path.join(VERIF, "harness", "*.h")))
+    hsh = tree_hash([srcf] + common, os.path.basename(clib))
     outd = os.path.join(BUILD, "drv-" + name + "-" + hsh)
     exe = os.path.join(outd, name)
     with Lock("drv-" + name):
@@ -427,7 +427,7 @@ SAN_ENV = {"ASAN_OPTIONS": "detect_leaks=1:abort_on_error=0:exitcode=97:allocato
            "LSAN_OPTIONS": "exitcode=96"}
 
 
-def run_driver(exe, args, lines, timeout=600, per_case_restart=True):
+def run_driver(exe, args, lines, timeout=600, per_case_restart=True, extra_env=None):
     """Feed `lines` (one case per line) to a driver that prints exactly one line per case.
     If the driver dies on case k, record the crash for k and restart from k+1.
     Returns (outputs list (None = crashed), crashes list of (index, stderr tail))."""
@@ -436,6 +436,8 @@ def run_driver(exe, args, lines, timeout=600, per_case_restart=True):
     start = 0
     env = dict(os.environ)
     env.update(SAN_ENV)
+    if extra_env:
+        env.update(extra_env)
     restarts = 0
     leak_reports = []
     while start < len(lines):
